@@ -1034,6 +1034,10 @@ template <typename FSM> void Explorer<FSM>::extraOps(const Node& n, std::vector<
 	const int tcap = (int) FSM::Instance::TASK_CAPACITY;
 	for (int r = 0; r < VT_COUNTS.regions && r < 2; ++r)
 		for (int k : {tcap, tcap + 1, tcap + 3}) { if (k > 250) continue; Op o; o.type = OP_PLAN_FLOOD; o.arg = (int16_t) r; o.n = (uint8_t) k; ops.push_back(o); }
+	// thorough: a status reported for a state that is not active (a call with a valid identifier), one pending mark at a time
+	if (opt.tier == "thorough" && n.key.find("|M") == std::string::npos)
+		for (int s = 1; s < N; ++s)
+			if (s < (int) n.active.size() && !n.active[s]) { Op o; o.type = OP_FAIL; o.arg = (int16_t) s; ops.push_back(o); }
 #endif
 #if VT_HISTORY
 	const int hcap = cap * VT_SUBLIMIT;
